@@ -270,7 +270,14 @@ def _same_file(asked: T, path: T, kind: str) -> bool:
     while path.op == "ite" and is_call_to(path.args[0],
                                           "builtins.isinstance"):
         path = path.args[1]          # the alternative for str / Path
-    if asked is path:
+
+    def bare(x: T) -> T:
+        # Path(p), str(p), os.fspath(p) name the file p names
+        while is_call_to(x, "pathlib.Path", "builtins.str", "os.fspath") \
+                and len(x.args[1]) == 1 and not x.args[2]:
+            x = x.args[1][0]
+        return x
+    if bare(asked) is bare(path):
         return True
     res = _CHK_RESOLVER[0]
     if res is not None and path.op == "call" and \
